@@ -920,10 +920,10 @@ def run(ctx):
     ctx.rule = ("emitters enumerated by introspection (module-level create_*, JSONRPCMessage.create_* classmethods, every send_* helper "
                 "under chuk_mcp.protocol.messages, handle_*_request builders, BatchProcessor.create_*) plus fixed recipes (server handler, "
                 "batch processing, stdio batch rejection, elicitation, transport-synthesised errors); per emitter: every payload of the "
-                "bounded-exhaustive depth-2 JSON set over {null,true,0,-1,2^63,2^64-1,1.5,'',a,space,U+2028,astral,[],{}} + seeded deep "
+                "bounded-exhaustive depth-2 JSON set over {null,true,0,-1,2^63,2^64-1,2^64,-2^63-1,10^30,1.5,'',a,space,U+2028,astral,[],{}} + seeded deep "
                 f"values, every id of {len(IDS)} shapes (0, negatives, 2^63..2^64-1, empty / digit / non-ASCII strings) x 3 payloads, "
                 "every method / code / message shape; both back ends; each emitted object serialised as stdio and as HTTP POST body, a "
-                "deterministic sample also through the three real transports; parse stream = products of member shapes (exhaustive in "
+                "deterministic sample also through the three real transports (stdio twice: as objects, and as pre-serialised pretty-printed text with LF / CRLF / trailing newline); parse stream = products of member shapes (exhaustive in "
                 "the thorough tier). distinct = distinct case descriptors; non-trivial = every case except the bare default-recipe call of a helper "
                 "(a case carries a payload, an id, a method or a string from the boundary lists, or a parser input)")
     return lib.finish(ctx, TRUSTED, ASSUME)
